@@ -135,11 +135,47 @@ theorem incOuts_eq (rc : Nat → Nat) (outs : List Nat) (v : Nat) (hv : rc v ≤
       rw [ih _ (by simpa [upd_ne _ _ h] using hv)]
       simp [upd_ne _ _ h, List.count_cons, this]
 
+theorem incDepsB_f (g : Graph) (b : RcBox) (ds : List Nat) :
+    (incDepsB g b ds).f = incDeps g b.f ds := by
+  induction ds generalizing b with
+  | nil => rfl
+  | cons d ds ih =>
+    simp only [incDepsB, incDeps]
+    rw [ih]
+    split <;> rfl
+
+theorem incPlanB_f (g : Graph) (b : RcBox) (plan : List Nat) :
+    (incPlanB g b plan).map (fun x => x.f) = incPlan g b.f plan := by
+  induction plan generalizing b with
+  | nil => rfl
+  | cons i is ih =>
+    simp only [incPlanB, incPlan]
+    cases getOp g i with
+    | none => rfl
+    | some op => simp only; rw [ih, incDepsB_f]
+
+theorem incOutsB_f (b : RcBox) (outs : List Nat) : (incOutsB b outs).f = incOuts b.f outs := by
+  induction outs generalizing b with
+  | nil => rfl
+  | cons o os ih => simp only [incOutsB, incOuts]; rw [ih]
+
+/-- The boxed counting phase computes the specification. -/
+theorem initRc_spec (g : Graph) (plan outs : List Nat) :
+    initRc g plan outs = initRcSpec g plan outs := by
+  unfold initRc initRcSpec
+  have h := incPlanB_f g ⟨fun _ => 0⟩ plan
+  cases hb : incPlanB g ⟨fun _ => 0⟩ plan with
+  | none => rw [hb] at h; simp only [Option.map_none] at h; rw [← h]
+  | some b =>
+    rw [hb] at h; simp only [Option.map_some] at h
+    rw [← h]; simp only [incOutsB_f]
+
 /-- **Counting phase.** The initial counter of every id is its number of uses, saturated
 at 255. -/
 theorem initRc_eq {g : Graph} {plan outs : List Nat} {rc : Nat → Nat}
     (h : initRc g plan outs = some rc) (v : Nat) : rc v = min (uses g plan outs v) 255 := by
-  unfold initRc at h
+  rw [initRc_spec] at h
+  unfold initRcSpec at h
   cases hp : incPlan g (fun _ => 0) plan with
   | none => simp [hp] at h
   | some rc1 =>
@@ -152,7 +188,8 @@ theorem initRc_eq {g : Graph} {plan outs : List Nat} {rc : Nat → Nat}
 
 theorem initRc_ops {g : Graph} {plan outs : List Nat} {rc : Nat → Nat}
     (h : initRc g plan outs = some rc) : ∀ i ∈ plan, ∃ op, getOp g i = some op := by
-  unfold initRc at h
+  rw [initRc_spec] at h
+  unfold initRcSpec at h
   cases hp : incPlan g (fun _ => 0) plan with
   | none => simp [hp] at h
   | some rc1 => exact incPlan_ops g _ rc1 plan hp
